@@ -342,7 +342,7 @@ def error_specifications_and_input_shapes_agree(h, n, d):
         h.eq("single point as 1-D array: same sigma", ss[0] ** 2, s1[0] ** 2)
 
 
-@unit("C02", quick=[dict(key=k, n=2, d=1) for k in ("SE", "RQ", "SE+WN", "SE+RQ", "CP2", "CP3")] + [dict(key="SE", n=2, d=2), dict(key="RQ", n=2, d=2)],
+@unit("C02", quick=[dict(key=k, n=2, d=1) for k in ("SE", "RQ", "SE+WN", "SE+RQ", "CP2", "CP3", "WN+SE", "SE+WN+RQ")] + [dict(key="SE", n=2, d=2), dict(key="RQ", n=2, d=2)],
       thorough=[dict(key=k, n=3, d=1) for k in ("CP2", "CP3", "CP4", "CP(SE,RQ)")], cost=3)
 def one_covariance_function_behind_both_entry_points(h, key, n, d):
     """the closed form is stated for one covariance function k: the regressor takes K_xx from build_covariance and K_qx,
